@@ -145,6 +145,7 @@ func runLinCase(c linCase) (linObs, error) {
 	if f := factoryKind(c.Fac, 1000, mk, &nfac); f != nil {
 		opts = append(opts, router.WithFactory(f))
 	}
+	orderOptions(opts, c.Fb+"/"+c.Fac+"/"+c.Progs)
 	r := router.NewRouter(opts...)
 	pool := map[string]bool{}
 	for _, e := range splitList(c.Reg0, ",") {
